@@ -295,8 +295,21 @@ pub fn run_nary(eng: &mut Eng, max_weak: usize, max_n: usize, time_only: bool) {
                 v
             };
             for ranks in &orders {
-                for (base, step) in [(-7i64, 5i64), (1_000_000_000_000, 1)] {
-                    let times = times_from_ranks(&cats, ranks, base, step);
+                let levels = ranks.iter().max().map(|m| m + 1).unwrap_or(0);
+                let mut time_sets: Vec<Vec<i64>> = [(-7i64, 5i64), (1_000_000_000_000, 1)].iter().map(|&(base, step)| times_from_ranks(&cats, ranks, base, step)).collect();
+                // the same order realised with timestamps further apart than i64::MAX
+                for map in extreme_level_maps(levels) {
+                    let mut t = vec![-107i64; cats.len()];
+                    let mut k = 0;
+                    for i in 0..cats.len() {
+                        if cats[i] == In::P {
+                            t[i] = map[ranks[k]];
+                            k += 1;
+                        }
+                    }
+                    time_sets.push(t);
+                }
+                for times in time_sets {
                     eng.executions += 1;
                     eng.states += 1;
                     eng.transitions += 3;
@@ -332,7 +345,16 @@ fn kleene_or(a: Option<bool>, b: Option<bool>) -> Option<bool> {
 }
 
 pub fn run_fixed(eng: &mut Eng, time_only: bool) {
-    let rel_times: [(i64, i64); 7] = [(3, 8), (8, 3), (5, 5), (-4, -9), (-9, -4), (i64::MIN, i64::MIN + 1), (i64::MAX, i64::MAX - 1)];
+    // the seven basic relations, then every ordered pair of the 15-value timestamp alphabet of C03
+    // (equal, adjacent, negative, near-extreme, and pairs further apart than i64::MAX)
+    let mut rel_times: Vec<(i64, i64)> = vec![(3, 8), (8, 3), (5, 5), (-4, -9), (-9, -4), (i64::MIN, i64::MIN + 1), (i64::MAX, i64::MAX - 1)];
+    for &a in &crate::c03::TS {
+        for &b in &crate::c03::TS {
+            if !rel_times.contains(&(a, b)) {
+                rel_times.push((a, b));
+            }
+        }
+    }
     // ---- two-input arithmetic
     for &c0 in &CATS {
         for &c1 in &CATS {
